@@ -41,6 +41,7 @@ BODIES = [
     ("let A := 1; let A := 2;", "reject"), ("?(let A := 1;) A", "reject"), ("(", "reject"),
     ("1 \"a\" add", "soft"), ("(1, 2) apply", "soft"),
     ("\"a%( 1\n %)b\"", "one"), ("(1,\n 2)", "many"), ("\"%( (1, 2)\n\n %)\"", "many"),
+    ("(1, 1 2, 3)", "multi"), ("(1 2, 3, 4 5)", "multi"), ("(1 2, 3)", "multi"), ("(1, 2 3 4)", "multi"),
 ]
 
 DW_PREFIX = [
@@ -52,6 +53,9 @@ DW_PREFIX = [
 ]
 
 ARG_LIT = ["x", "foo", "a1", "hello", "7", "zz9"]
+# -a passes its argument verbatim, whatever is in it
+ARG_LIT_SPECIAL = ["100%%", "a%(1 2 add%)b", "%d items", "50%", "q\"uote", "back\\slash", "%s", "%", "a b", "%x%%",
+                   "printf(\"%s\\n\")", "", "-x", "let"]
 ARG_EVAL = [("1", 1), ("\"s\"", 1), ("(1, 2)", 2), ("(\"a\", \"b\", \"c\")", 3), ("10 20", 1),
             ("1 (== 2)", 0), ("0x1f", 1), ("(7, 8, 9) ?(8 ?ne)", 2), ("[1, 2]", 1),
             ("1 )", -1), ("nosuch", -1), ("drop", -2), ("(1, 2) " + BOMB % 1, -2)]
@@ -85,9 +89,12 @@ def make_plan(rng, idx):
     nargs = rng.choice([0, 0, 0, 1, 1, 2])
     for _ in range(nargs):
         if rng.random() < 0.4:
-            lit = rng.choice(ARG_LIT)
-            # -a X and --a '"X"' are the same thing
-            cli["args"].append({"kind": "lit", "text": lit, "as_eval": rng.random() < 0.5})
+            if rng.random() < 0.3:
+                cli["args"].append({"kind": "lit", "text": rng.choice(ARG_LIT_SPECIAL), "as_eval": False})
+            else:
+                lit = rng.choice(ARG_LIT)
+                # -a X and --a '"X"' are the same thing
+                cli["args"].append({"kind": "lit", "text": lit, "as_eval": rng.random() < 0.5})
         else:
             t, n = rng.choice(ARG_EVAL)
             if n < 0 and rng.random() < 0.6:
@@ -97,6 +104,16 @@ def make_plan(rng, idx):
     body, klass = rng.choice(BODIES)
     if rng.random() < 0.25:
         body, klass = rng.choice([b for b in BODIES if b[1] in ("fail", "reject", "none", "multi")])
+    argdep = None
+    if rng.random() < 0.2:
+        # a query that fails after one result, but only for one combination
+        drops = " ".join(["drop"] * 10)
+        if cli["args"] and cli["args"][-1]["kind"] == "eval" and cli["args"][-1]["text"] in ("(1, 2)", "(7, 8, 9) ?(8 ?ne)"):
+            k = rng.choice([1, 2, 7, 9])
+            argdep = "(10, 20) ?(pos 1 !eq || over %d !eq || %s)" % (k, drops)
+        elif nfiles >= 2 and not cli["args"]:
+            f = rng.choice(cli["files"])
+            argdep = "(10, 20) ?(pos 1 !eq || over name \"%s\" !eq || %s)" % (vpath(f), drops)
     pre = ""
     if nfiles:
         pre, pk = rng.choice(DW_PREFIX)
@@ -111,6 +128,9 @@ def make_plan(rng, idx):
         pre = rng.choice(["drop", "\"<%s>\"", "dup"])
     cli["query"] = (pre + " " + body).strip() if rng.random() < 0.97 else None
     cli["qclass"] = klass
+    if argdep is not None:
+        cli["query"] = argdep
+        cli["qclass"] = "fail-for-one-combination"
     cli["qmode"] = rng.choice(["e", "e", "e", "f", "f-", "pos", "expr"])
     plan["cli"] = cli
     derive(plan)
